@@ -736,9 +736,15 @@ impl CodeVisitor for RecCode {
 	}
 
 	fn visit_local_variables(&mut self, local_variables: Vec<Lv>) -> Result<()> {
-		let d = local_variables.iter().map(|v| format!("{} {:?} {:?} {:?} {}", range_digest(&v.range), v.name, v.descriptor, v.signature, v.index.index))
+		// rows of LocalVariableTable carry a descriptor ("t"), rows of LocalVariableTypeTable a signature ("y"); each kind is
+		// subject to its own interest flag, so the event reports them apart: vis = kinds present, arg = "t" rows, frame = "y" rows
+		let d = |want_sig: bool| local_variables.iter().filter(|v| if want_sig { v.signature.is_some() } else { v.descriptor.is_some() })
+			.map(|v| format!("{} {:?} {:?} {:?} {}", range_digest(&v.range), v.name, v.descriptor, v.signature, v.index.index))
 			.collect::<Vec<_>>().join(";");
-		self.raw("visit_local_variables", "", d, String::new());
+		let t = local_variables.iter().any(|v| v.descriptor.is_some());
+		let y = local_variables.iter().any(|v| v.signature.is_some());
+		let vis = match (t, y) { (true, true) => "ty", (true, false) => "t", (false, true) => "y", (false, false) => "" };
+		self.raw("visit_local_variables", vis, d(false), d(true));
 		self.inner.visit_local_variables(local_variables)
 	}
 
